@@ -584,6 +584,75 @@ func extractStdio(p *pkgs, f *facts) {
 				}
 			}
 		}
+		// the two-step shape: the reader field is pumped into a channel field ONCE per server (`copyChan(_, recv.C, recv.Stdout)`
+		// inside a sync.Once) and every connection copies that channel to one of its streams
+		// (`copyChanStream(name, streams[i], recv.C, done)`, which writes exactly what it receives)
+		chanOf := map[string]string{} // channel field -> "out"/"err"
+		for _, c := range calls(sc.Body, "copyChan", false) {
+			if len(c.Args) != 3 {
+				continue
+			}
+			ch, src := exprString(c.Args[1]), exprString(c.Args[2])
+			if !strings.HasPrefix(src, recv+".") || !strings.HasPrefix(ch, recv+".") {
+				continue
+			}
+			if s, found := rsrvFields[src[len(recv)+1:]]; found {
+				seen[s]++
+				if _, dup := chanOf[ch]; dup {
+					seen[s]++
+				}
+				chanOf[ch] = s
+			}
+		}
+		ccsOK := false
+		if cs := p.fn("", "copyChanStream"); cs != nil && cs.Type.Params != nil {
+			var names []string
+			for _, fl := range cs.Type.Params.List {
+				for _, n := range fl.Names {
+					names = append(names, n.Name)
+				}
+			}
+			if len(names) == 4 {
+				dst, src := names[1], names[2]
+				recvVar, writes, otherRecv := "", 0, 0
+				ast.Inspect(cs.Body, func(m ast.Node) bool {
+					switch x := m.(type) {
+					case *ast.AssignStmt:
+						if len(x.Lhs) == 1 && len(x.Rhs) == 1 && exprString(x.Rhs[0]) == "<-"+src {
+							recvVar = exprString(x.Lhs[0])
+						}
+					case *ast.UnaryExpr:
+						if x.Op == token.ARROW && exprString(x.X) == src {
+							otherRecv++
+						}
+					case *ast.CallExpr:
+						if exprString(x.Fun) == dst+".Write" && len(x.Args) == 1 && recvVar != "" && exprString(x.Args[0]) == recvVar {
+							writes++
+						}
+					}
+					return true
+				})
+				ccsOK = recvVar != "" && writes == 1 && otherRecv == 1
+			}
+		}
+		usedCh := map[string]int{}
+		for _, c := range calls(sc.Body, "copyChanStream", false) {
+			if len(c.Args) != 4 {
+				continue
+			}
+			ch := exprString(c.Args[2])
+			usedCh[ch]++
+			if s, found := chanOf[ch]; found {
+				if i := idxOf(exprString(c.Args[1]), slice); i >= 0 && ok && ccsOK {
+					rpcSrv[s] = i
+				}
+			}
+		}
+		for ch, n := range usedCh {
+			if s, found := chanOf[ch]; found && n != 1 {
+				rpcSrv[s] = unkSrv
+			}
+		}
 		for s, n := range seen {
 			if n != 1 {
 				rpcSrv[s] = unkSrv
@@ -657,10 +726,34 @@ func extractStdio(p *pkgs, f *facts) {
 	}
 	js["streamCtx"] = map[string]interface{}{"boundMs": bound, "chain": chain}
 
-	f.lean = append(f.lean, fmt.Sprintf("def stdio : Stdio.Params := ⟨%d, %s, %s, %s, %s, %s, %s, %d, %d, %d, %d, %s⟩",
+	// client keep-alive: any grpc.WithKeepaliveParams(…) among the options dialGRPCConn builds
+	leanKA := "none"
+	if dg := p.fn("", "dialGRPCConn"); dg != nil {
+		ast.Inspect(dg.Body, func(n ast.Node) bool {
+			ce, ok := n.(*ast.CallExpr)
+			if !ok || exprString(ce.Fun) != "grpc.WithKeepaliveParams" {
+				return true
+			}
+			ms := int64(0)
+			ast.Inspect(ce, func(m ast.Node) bool {
+				if kv, ok := m.(*ast.KeyValueExpr); ok && exprString(kv.Key) == "Time" {
+					if d, ok := p.evalInt(kv.Value); ok {
+						ms = d
+					}
+				}
+				return true
+			})
+			leanKA = fmt.Sprintf("(some %d)", ms)
+			return true
+		})
+	} else {
+		f.miss = append(f.miss, "dialGRPCConn(stdio)")
+	}
+	js["clientKeepalive"] = leanKA
+	f.lean = append(f.lean, fmt.Sprintf("def stdio : Stdio.Params := ⟨%d, %s, %s, %s, %s, %s, %s, %d, %d, %d, %d, %s, %s⟩",
 		chunk, leanBool(sendsExact), tagStdout, tagStderr, leanBool(skipOnlyEmpty),
 		leanSink(sinkOfTag["STDOUT"]), leanSink(sinkOfTag["STDERR"]),
-		rpcSrv["out"], rpcSrv["err"], rpcCli["out"], rpcCli["err"], leanBound))
+		rpcSrv["out"], rpcSrv["err"], rpcCli["out"], rpcCli["err"], leanBound, leanKA))
 	js["params"] = map[string]interface{}{"chunk": chunk, "sendsExactRead": sendsExact, "tagStdoutCh": tagStdout, "tagStderrCh": tagStderr,
 		"skipOnlyEmpty": skipOnlyEmpty, "cliOnStdout": leanSink(sinkOfTag["STDOUT"]), "cliOnStderr": leanSink(sinkOfTag["STDERR"]),
 		"rpcSrvOut": rpcSrv["out"], "rpcSrvErr": rpcSrv["err"], "rpcCliOut": rpcCli["out"], "rpcCliErr": rpcCli["err"],
